@@ -761,4 +761,189 @@ theorem usage_closed (defs : List VarDef) (env : Env) (fuel : Nat) (T : Ty) (ld 
     (hc : containsVar l = false) (hd : litDepth l ≤ fuel) : usage defs env fuel T ld l = true :=
   usageT_closed defs _ fuel (fun n lfs hc' hd' => usageObj_closed defs env fuel n lfs hc' hd') T ld l hc hd
 
+
+/-! ## Fuel does not matter beyond the object nesting depth of the value -/
+
+theorem In.depth_le_L : ∀ {xs : List In} {x : In}, x ∈ xs → x.depth ≤ In.depthL xs
+  | y :: ys, x, hx => by
+    simp only [In.depthL]
+    rcases List.mem_cons.mp hx with rfl | hx
+    · exact Nat.le_max_left ..
+    · exact Nat.le_trans (In.depth_le_L hx) (Nat.le_max_right ..)
+
+theorem In.depth_lookup_le : ∀ {m : List (String × In)} {name : String} {v : In},
+    m.lookup name = some v → v.depth ≤ In.depthF m
+  | (k, w) :: rest, name, v, h => by
+    simp only [List.lookup] at h
+    simp only [In.depthF]
+    split at h
+    · cases h; exact Nat.le_max_left ..
+    · exact Nat.le_trans (In.depth_lookup_le h) (Nat.le_max_right ..)
+
+theorem mapAll_congr' {α β : Type} {f g : α → Option β} {xs : List α} (h : ∀ x ∈ xs, f x = g x) :
+    mapAll f xs = mapAll g xs := ApiFu.C05.mapAll_congr h
+
+/-- Outside objects: two insides that agree on every object below the value give the same result. -/
+theorem coerceVarT_congr (Pm : Params) (k k' : String → List (String × In) → Option GoVal) :
+    ∀ (T : Ty) (v : In) (allow : Bool), (∀ n m, In.depthF m + 1 ≤ v.depth → k n m = k' n m) →
+      coerceVarT Pm k T v allow = coerceVarT Pm k' T v allow := by
+  intro T
+  induction T with
+  | scalar s => intro v allow _; cases v <;> simp [coerceVarT]
+  | custom n => intro v allow _; cases v <;> simp [coerceVarT]
+  | enum n vs => intro v allow _; cases v <;> simp [coerceVarT]
+  | ref n =>
+    intro v allow h
+    cases v <;> simp only [coerceVarT]
+    exact h n _ (by simp [In.depth])
+  | list t ih =>
+    intro v allow h
+    cases v with
+    | list xs =>
+      simp only [coerceVarT]
+      rw [mapAll_congr' (fun x hx => ih x false (fun n m hm => h n m
+        (Nat.le_trans hm (by simpa [In.depth] using In.depth_le_L hx))))]
+    | null => simp [coerceVarT]
+    | num z => simp only [coerceVarT]; rw [ih _ true h]
+    | str z => simp only [coerceVarT]; rw [ih _ true h]
+    | bool z => simp only [coerceVarT]; rw [ih _ true h]
+    | obj z => simp only [coerceVarT]; rw [ih _ true h]
+    | intk kd z => simp only [coerceVarT]; rw [ih _ true h]
+    | f32 z => simp only [coerceVarT]; rw [ih _ true h]
+    | nonFinite => simp only [coerceVarT]; rw [ih _ true h]
+    | jsonNumber z => simp only [coerceVarT]; rw [ih _ true h]
+    | bytes z => simp only [coerceVarT]; rw [ih _ true h]
+    | other z => simp only [coerceVarT]; rw [ih _ true h]
+  | nonNull t ih =>
+    intro v allow h
+    cases v with
+    | null => simp [coerceVarT]
+    | list xs => simp only [coerceVarT]; exact ih _ allow h
+    | num z => simp only [coerceVarT]; exact ih _ allow h
+    | str z => simp only [coerceVarT]; exact ih _ allow h
+    | bool z => simp only [coerceVarT]; exact ih _ allow h
+    | obj z => simp only [coerceVarT]; exact ih _ allow h
+    | intk kd z => simp only [coerceVarT]; exact ih _ allow h
+    | f32 z => simp only [coerceVarT]; exact ih _ allow h
+    | nonFinite => simp only [coerceVarT]; exact ih _ allow h
+    | jsonNumber z => simp only [coerceVarT]; exact ih _ allow h
+    | bytes z => simp only [coerceVarT]; exact ih _ allow h
+    | other z => simp only [coerceVarT]; exact ih _ allow h
+
+theorem coerceVarFields_congr {rec rec' : Ty → In → Option GoVal} :
+    ∀ (fs : List FieldDef) (m : List (String × In)),
+      (∀ f ∈ fs, ∀ v, m.lookup f.name = some v → rec f.ty v = rec' f.ty v) →
+      coerceVarFields rec fs m = coerceVarFields rec' fs m
+  | [], _, _ => rfl
+  | f :: rest, m, h => by
+    simp only [coerceVarFields]
+    rw [coerceVarFields_congr rest m (fun g hg => h g (List.mem_cons_of_mem _ hg))]
+    cases hl : m.lookup f.name with
+    | none => rfl
+    | some v => simp [h f (List.mem_cons_self ..) v hl]
+
+theorem coerceVarObj_fuel (Pm : Params) (env : Env) :
+    ∀ (f f' : Nat) (n : String) (m : List (String × In)), In.depthF m + 1 ≤ f → In.depthF m + 1 ≤ f' →
+      coerceVarObj Pm env f n m = coerceVarObj Pm env f' n m := by
+  intro f
+  induction f with
+  | zero => intro f' n m h; omega
+  | succ f ih =>
+    intro f' n m h h'
+    cases f' with
+    | zero => omega
+    | succ f' =>
+      simp only [coerceVarObj]
+      cases env.lookup n with
+      | none => rfl
+      | some od =>
+        simp only
+        rw [coerceVarFields_congr od.fields m]
+        intro fd _ v hv
+        have hdv := In.depth_lookup_le hv
+        exact coerceVarT_congr Pm _ _ fd.ty v true (fun n' m' hm => ih f' n' m' (by omega) (by omega))
+
+/-- **Fuel irrelevance (variable route).** -/
+theorem coerceVar_fuel (Pm : Params) (env : Env) (f f' : Nat) (T : Ty) (v : In) (allow : Bool)
+    (h : v.depth ≤ f) (h' : v.depth ≤ f') : coerceVar Pm env f T v allow = coerceVar Pm env f' T v allow :=
+  coerceVarT_congr Pm _ _ T v allow (fun n m hm => coerceVarObj_fuel Pm env f f' n m (by omega) (by omega))
+
+
+theorem coerceLitT_congr (Pm : Params) (vars : Vars) (k k' : String → List (String × Lit) → Option GoVal) :
+    ∀ (T : Ty) (l : Lit) (allow : Bool), (∀ n lfs, litDepthF lfs + 1 ≤ litDepth l → k n lfs = k' n lfs) →
+      coerceLitT Pm vars k T l allow = coerceLitT Pm vars k' T l allow := by
+  intro T
+  induction T with
+  | scalar s => intro l allow _; cases l <;> simp [coerceLitT]
+  | custom n => intro l allow _; cases l <;> simp [coerceLitT]
+  | enum n vs => intro l allow _; cases l <;> simp [coerceLitT]
+  | ref n =>
+    intro l allow h
+    cases l <;> simp only [coerceLitT]
+    exact h n _ (by simp [litDepth])
+  | list t ih =>
+    intro l allow h
+    cases l with
+    | list xs =>
+      simp only [coerceLitT]
+      rw [mapAll_congr' (fun x hx => ih x false (fun n m hm => h n m
+        (Nat.le_trans hm (by simpa [litDepth] using litDepth_le_L hx))))]
+    | null => simp [coerceLitT]
+    | var v => simp [coerceLitT]
+    | int z => simp only [coerceLitT]; rw [ih _ true h]
+    | float z => simp only [coerceLitT]; rw [ih _ true h]
+    | str z => simp only [coerceLitT]; rw [ih _ true h]
+    | bool z => simp only [coerceLitT]; rw [ih _ true h]
+    | enum z => simp only [coerceLitT]; rw [ih _ true h]
+    | obj z => simp only [coerceLitT]; rw [ih _ true h]
+  | nonNull t ih =>
+    intro l allow h
+    cases l with
+    | null => simp [coerceLitT]
+    | var v => simp [coerceLitT]
+    | list xs => simp only [coerceLitT]; exact ih _ allow h
+    | int z => simp only [coerceLitT]; exact ih _ allow h
+    | float z => simp only [coerceLitT]; exact ih _ allow h
+    | str z => simp only [coerceLitT]; exact ih _ allow h
+    | bool z => simp only [coerceLitT]; exact ih _ allow h
+    | enum z => simp only [coerceLitT]; exact ih _ allow h
+    | obj z => simp only [coerceLitT]; exact ih _ allow h
+
+theorem coerceLitFields_congr {vars : Vars} {rec rec' : Ty → Lit → Option GoVal} :
+    ∀ (fs : List FieldDef) (lfs : List (String × Lit)),
+      (∀ f ∈ fs, ∀ p ∈ lfs, rec f.ty p.2 = rec' f.ty p.2) →
+      coerceLitFields vars rec fs lfs = coerceLitFields vars rec' fs lfs
+  | [], _, _ => rfl
+  | f :: rest, lfs, h => by
+    simp only [coerceLitFields]
+    rw [coerceLitFields_congr rest lfs (fun g hg => h g (List.mem_cons_of_mem _ hg))]
+    rw [mapAll_congr' (fun p hp => h f (List.mem_cons_self ..) p (List.mem_filter.mp hp).1)]
+
+theorem coerceLitObj_fuel (Pm : Params) (env : Env) (vars : Vars) :
+    ∀ (f f' : Nat) (n : String) (lfs : List (String × Lit)), litDepthF lfs + 1 ≤ f → litDepthF lfs + 1 ≤ f' →
+      coerceLitObj Pm env vars f n lfs = coerceLitObj Pm env vars f' n lfs := by
+  intro f
+  induction f with
+  | zero => intro f' n m h; omega
+  | succ f ih =>
+    intro f' n lfs h h'
+    cases f' with
+    | zero => omega
+    | succ f' =>
+      simp only [coerceLitObj]
+      cases env.lookup n with
+      | none => rfl
+      | some od =>
+        simp only
+        rw [coerceLitFields_congr od.fields lfs]
+        intro fd _ p hp
+        have hdv := litDepth_le_F hp
+        exact coerceLitT_congr Pm vars _ _ fd.ty p.2 true (fun n' m' hm => ih f' n' m' (by omega) (by omega))
+
+/-- **Fuel irrelevance (literal route).** -/
+theorem coerceLit_fuel (Pm : Params) (env : Env) (vars : Vars) (f f' : Nat) (T : Ty) (l : Lit) (allow : Bool)
+    (h : litDepth l ≤ f) (h' : litDepth l ≤ f') :
+    coerceLit Pm env vars f T l allow = coerceLit Pm env vars f' T l allow :=
+  coerceLitT_congr Pm vars _ _ T l allow (fun n m hm => coerceLitObj_fuel Pm env vars f f' n m (by omega) (by omega))
+
 end ApiFu.C05.R
